@@ -4,6 +4,7 @@ import InTotoModel.Lemmas.InspectOrder
 import InTotoModel.Lemmas.TimeMono
 import InTotoModel.Lemmas.OtherFiles
 import InTotoModel.Lemmas.OwnersOnly
+import InTotoModel.Lemmas.Unauthorized
 import InTotoModel.Props.Scenario
 /-
   The pipeline model computes the specification `Spec/Verify.lean` - soundness *and* completeness of
@@ -455,6 +456,57 @@ theorem c15_scenario_with_a_stray_subdirectory :
       rw [hc, show List.head? ("pkg".toList ++ '.' :: prefix8 kid) = some 'p' from rfl] at h0'
       exact absurd h0' (by decide)
   have e : Dir.mk Scenario.dir.files ([] ++ Scenario.dir.subs) = Scenario.dir := rfl
+  rw [e]
+  exact okPart_eq_some.mpr Scenario.verifies_id
+
+end InToto.VerifySpec
+
+namespace InToto.VerifySpec
+open InToto InToto.Verify
+
+variable {K : Type}
+
+/-- C02 (evidence of other keys never counts - and never hurts): a readable file named like evidence of a
+    step but filed under an id the step does not list (or under no id at all: none of its signatures has
+    the prefix in its name), inserted anywhere into the listing of the link directory - whatever it says,
+    however it is signed - changes neither verdict nor summary. -/
+theorem c02_evidence_of_unlisted_keys_neither_helps_nor_hurts (env : Env K) (ord ord' : Ord) (hord : ord.Valid)
+    (hord' : ord'.Valid) (fuel : Nat) (path : List Str) (b : Block K) (keys : List K)
+    (pre post : List (Str × FileC K)) (subs : List (Str × Dir K)) (n : Str) (blk : Block K) (name : Str)
+    (hf : ∀ L, b.signed = .layout L → ∀ st ∈ L.steps, ∀ e,
+      filedUnder st.name (n, FileC.block blk) = some e → e.1 ∉ st.pubkeys) :
+    okPart (verify env ord (fuel + 1) path b keys (Dir.mk (pre ++ (n, FileC.block blk) :: post) subs) name).1 =
+      okPart (verify env ord' (fuel + 1) path b keys (Dir.mk (pre ++ post) subs) name).1 := by
+  rw [okPart_verify_eq_accepts env ord hord, okPart_verify_eq_accepts env ord' hord']
+  exact acceptsStep_insert_unlisted (accepts env fuel) env path b keys pre post subs n blk name hf
+
+/-- a dissenting `build` link, validly signed by the owner's key - which the step does not list -/
+def strayBlock : Block Nat := { sigs := [{ kid := Scenario.kO, val := [0] }], signed := .link Scenario.dissentLink }
+
+/-- non-vacuity: the scenario with that third `build` link between its link files verifies as before -/
+theorem c02_scenario_with_a_link_of_an_unlisted_key :
+    okPart (verify Scenario.env Scenario.revOrd 2 [] Scenario.block [0]
+      (Dir.mk (Scenario.dir.files.take 1 ++ ("build.oooooooo.link".toList, FileC.block strayBlock) ::
+        Scenario.dir.files.drop 1) Scenario.dir.subs) "final".toList).1 = some Scenario.summaryLink := by
+  rw [c02_evidence_of_unlisted_keys_neither_helps_nor_hurts Scenario.env Scenario.revOrd Scenario.idOrd
+    Scenario.revOrd_valid Scenario.idOrd_valid 1 [] Scenario.block [0] (Scenario.dir.files.take 1) (Scenario.dir.files.drop 1)
+    Scenario.dir.subs "build.oooooooo.link".toList strayBlock "final".toList ?hf]
+  case hf =>
+    intro L hL st hst e he
+    cases hL
+    simp only [Scenario.layout, List.mem_cons, List.not_mem_nil, or_false] at hst
+    rcases hst with rfl | rfl
+    · have hc : filedUnder "build".toList ("build.oooooooo.link".toList, FileC.block strayBlock) =
+          some (Scenario.kO, strayBlock) := by rfl
+      have he' : filedUnder "build".toList ("build.oooooooo.link".toList, FileC.block strayBlock) = some e := he
+      rw [hc] at he'
+      cases he'
+      decide
+    · have hc : filedUnder "pkg".toList ("build.oooooooo.link".toList, FileC.block strayBlock) = none := by rfl
+      have he' : filedUnder "pkg".toList ("build.oooooooo.link".toList, FileC.block strayBlock) = some e := he
+      rw [hc] at he'
+      cases he'
+  have e : Dir.mk (Scenario.dir.files.take 1 ++ Scenario.dir.files.drop 1) Scenario.dir.subs = Scenario.dir := rfl
   rw [e]
   exact okPart_eq_some.mpr Scenario.verifies_id
 
